@@ -125,8 +125,15 @@ func vPickType(tag string, kinds int) vType {
 	case 4:
 		t := vType{kind: "input", fields: vPickFields(tag), plainID: vPlain && verifChoice(tag+".plainid", 2) == 1}
 		for i := range t.fields {
-			if t.fields[i].name == "f1" && vInputDefault() {
-				t.fields[i].def = map[string]string{"Int": "3", "String": `"x"`}[t.fields[i].typ]
+			if t.fields[i].name == "f1" && vPlain {
+				// per service: no default, one default, another default (an input two services declare
+				// with different defaults is not the same input)
+				switch verifChoice(tag+".indefault", 3) {
+				case 1:
+					t.fields[i].def = map[string]string{"Int": "3", "String": `"x"`}[t.fields[i].typ]
+				case 2:
+					t.fields[i].def = map[string]string{"Int": "4", "String": `"y"`}[t.fields[i].typ]
+				}
 			}
 		}
 		return t
@@ -289,7 +296,7 @@ func vConflict(a, b vService) string {
 		}
 		for _, x := range ta.fields {
 			for _, y := range tb.fields {
-				if x.name == y.name && (x.typ != y.typ || (ta.kind == "object" && x.arg != y.arg)) {
+				if x.name == y.name && (x.typ != y.typ || (ta.kind == "object" && x.arg != y.arg) || (ta.kind == "input" && x.def != y.def)) {
 					return "shared field with different type or arguments"
 				}
 			}
